@@ -438,6 +438,69 @@ def run_generated_accept_set(res, tier, sc, drv):
     return {"generated_accept_set": counts}
 
 
+def run_runtime_traps(res, tier, sc, drv):
+    """C03, hand-written runtime library (libsam.wat as embedded in an emitted module, E-W): the string helpers a
+    program can reach with ANY string must not end in an engine-level fault: `Str.toInt` on every string of <= 3 bytes
+    (all contents: the spec leaves the *value* on invalid input to the implementation, not a crash), `Str.fromInt`
+    on every i32, `Str.concat` / `Str.eq` on all strings of length <= 2."""
+    import z3
+    from vlib import wat
+    from vlib.irsym import Int, I31, World, BV
+    od = os.path.join(sc.root, "et", "c03rt")
+    prog = os.path.join(sc.root, "c03rt.sam")
+    open(prog, "w").write('class Main { function main(): unit = { let a = "12"; let b = Str.fromInt(a.toInt()); '
+                          'if (a :: b) == b { Process.println(a) } else { Process.println(b) } } }\n')
+    p = drv.call(["dump", od, "11111", "RT=" + prog], check=False)
+    if '"status":"ok"' not in p.stdout:
+        raise Inconclusive("could not compile the runtime probe program: %s" % p.stdout[:300])
+    mod = wat.Module(open(os.path.join(od, "all.wat")).read())
+    bounds = {"forks": 40, "steps": 20000, "paths": 400, "seconds": 120}
+    stats = {"functions": [], "paths": 0, "obligations": 0, "discharged": 0}
+
+    def no_trap(fname, args, pre, what):
+        ex = wat.WExec(mod, World(), bounds)
+        ex.deadline = time.time() + bounds["seconds"]
+        ps = ex.run(fname, args, pre, None)
+        if not ps:
+            res.inconc("runtime traps: no path through %s (%s)" % (fname, what))
+        for p_ in ps:
+            stats["paths"] += 1
+            if p_.outcome == "return":
+                continue
+            stats["obligations"] += 1
+            if p_.outcome == "bound":
+                res.inconc("runtime traps: unrolling bound reached in %s (%s)" % (fname, what))
+                continue
+            s_ = z3.Solver()
+            s_.set("timeout", 60000)
+            s_.add(*p_.pc)
+            r = s_.check()
+            if r == z3.unsat:
+                stats["discharged"] += 1
+            elif r == z3.sat:
+                m = s_.model()
+                res.violation("runtime library: %s ends in an engine-level fault (%s: %s) for %s" % (fname, p_.outcome, p_.why, what),
+                              {"property": "C03", "function": fname, "case": what, "outcome": p_.outcome, "why": p_.why, "model": str(m)[:400]})
+                return
+            else:
+                res.inconc("runtime traps: solver unknown for %s" % fname)
+
+    def mkstr(tag, n):
+        elems = [Int(z3.SignExt(24, z3.BitVec("%s_c%d" % (tag, k), 8))) for k in range(n)]
+        return wat.Arr("_Str", elems, key=tag)
+
+    for n in range(4):
+        no_trap("__Str$toInt", [mkstr("s", n)], [], "a string of %d arbitrary bytes" % n)
+    v = z3.BitVec("v", 32)
+    no_trap("__Str$fromInt", [I31(BV(0)), Int(v)], [], "any i32")
+    for na in range(3):
+        for nb in range(3):
+            no_trap("__Str$concat", [mkstr("a", na), mkstr("b", nb)], [], "strings of %d and %d bytes" % (na, nb))
+            no_trap("__Str$eq", [mkstr("a", na), mkstr("b", nb)], [], "strings of %d and %d bytes" % (na, nb))
+    stats["functions"] = ["__Str$toInt", "__Str$fromInt", "__Str$concat", "__Str$eq"]
+    return {"runtime_traps": stats}
+
+
 TRAP_FILES = ["mir_unopt.json", "mir_opt_11111.json", "lir.json", "lir_00000.json"]
 
 
